@@ -76,6 +76,9 @@ def cases(tier, seed):
             out.append({"id": "%s/%d" % (name, i), "det": name, "seed": [seed, 1, i], "cost": cost})
     for i in range(n):
         out.append({"id": "MD3/%d" % i, "det": "MD3", "seed": [seed, 1, i], "cost": 1})
+    if tier == "thorough":
+        # extra workload: the repository's own suite with the domain / counter / tree contracts attached to the real classes
+        out.append({"id": "repo_suite_under_contracts", "det": "SUITE", "seed": [seed], "cost": 200})
     return out
 
 
@@ -184,6 +187,8 @@ class Automaton:
 def run_case(case, ctx):
     warnings.simplefilter("ignore")
     name = case["det"]
+    if name == "SUITE":
+        return run_suite(ctx)
     if name == "MD3":
         return run_md3(case, ctx)
     rng = gen.rng_for(case["seed"], name)
@@ -318,3 +323,34 @@ def run_md3(case, ctx):
     ctx.nontrivial = drifts >= 1
     ctx.sample = {"detector": "MD3", "cfg": cfg, "confirmed_drifts": drifts}
     ctx.digest = "MD3-%s" % sorted(cfg.items())
+
+
+def run_suite(ctx):
+    """the repository's test-suite as a workload, judged by contracts on the real classes (mon/pytest_contracts.py)"""
+    import json
+    import os
+    import subprocess
+    import sys
+    import tempfile
+
+    from ..core import REPO
+
+    with tempfile.TemporaryDirectory() as d:
+        env = dict(os.environ, VERIF_CONTRACT_EVALS=os.path.join(d, "evals.jsonl"), COVERAGE_FILE=os.path.join(d, ".coverage"))
+        p = subprocess.run([sys.executable, "-m", "pytest", "-q", "-p", "no:cacheprovider", "-p", "mon.pytest_contracts", "-o", "addopts=",
+                            "--timeout=900", "tests/menelaus"], cwd=REPO, env=env, capture_output=True, text=True, timeout=1500)
+        ev = {}
+        if os.path.exists(env["VERIF_CONTRACT_EVALS"]):
+            for line in open(env["VERIF_CONTRACT_EVALS"]):
+                for k_, v in json.loads(line).items():
+                    ev[k_] = ev.get(k_, 0) + v
+    ctx.count("suite_contract_evaluations", sum(ev.values()))
+    out = p.stdout + p.stderr
+    if "ContractBroken" in out:
+        i = out.index("ContractBroken")
+        ctx.violation("C01/repo_suite_contract_broken", "a domain / counter / tree contract failed while the repository's own tests ran: ...%s" % out[max(0, i - 600): i + 300])
+    elif p.returncode != 0:
+        ctx.count("suite_failures_without_contract_involvement")
+    ctx.nontrivial = sum(ev.values()) > 1000
+    ctx.sample = {"detector": "repository test-suite under contracts", "contract_evaluations": ev, "pytest_tail": out.strip().splitlines()[-1:]}
+    ctx.digest = "suite"
